@@ -71,8 +71,10 @@ def gen(tier, rng, harness=None):
             h = "%016X" % fb
             lines += ["flt.canon float " + h, "!flt.rt float " + h]
     for b in patterns(rng, 15, 112, n):
-        h = "%032X" % b
-        lines += ["flt.canon fp128 " + h, "!flt.rt fp128 " + h]
+        # the literal spells the LOW word first (LLVM's order); patterns whose low word looks like an all-ones exponent are finite values too
+        for bits in (b, (b >> 64) | ((b & (2**64 - 1)) << 64)):
+            h = "%016X%016X" % (bits & (2**64 - 1), bits >> 64)
+            lines += ["flt.canon fp128 " + h, "!flt.rt fp128 " + h]
     # x86_fp80: canonical encodings (+ some non-canonical ones for the correspondence only)
     for _ in range(n):
         s = rng.choice([0, 0x8000])
